@@ -49,6 +49,16 @@ type Flat struct {
 	C [2]bool `json:"c"`
 }
 
+// Box holds its containers through pointers: a struct field that is a *map, a *slice, a slice of pointers to structs.
+type Box struct {
+	M  *map[string]any `json:"m"`
+	S  *[]int          `json:"s"`
+	Rs []*Rule         `json:"rs"`
+	T  *Tag            `json:"t"`
+}
+
+var TBox = reflect.TypeOf(Box{})
+
 var (
 	TRule = reflect.TypeOf(Rule{})
 	TTag  = reflect.TypeOf(Tag{})
